@@ -454,6 +454,16 @@ def get_confirmed_edges_for_node(graph: nx.MultiDiGraph, node: DSGNode, include_
 def get_unconnected_connectors(graph: nx.MultiDiGraph, start_nodes: Set[DSGNode], stop_at_one: bool = False)\
         -> List[ConnectorNode]:
 
+    def _exists_conditionally(node):
+        if has_conditional_existence(graph, start_nodes, node):
+            return True
+        # A grouping node aggregates the degrees of its connectors: its degree is not final as long as one of them only
+        # exists conditionally
+        if isinstance(node, ConnectorDegreeGroupingNode):
+            return any(has_conditional_existence(graph, start_nodes, in_edge[0])
+                       for in_edge in iter_in_edges(graph, node, edge_type=EdgeType.DERIVES))
+        return False
+
     checked = {}
     unconnected_connectors = []
     for connector_node in get_nodes_by_subtype(graph, ConnectorNode):
@@ -494,8 +504,7 @@ def get_unconnected_connectors(graph: nx.MultiDiGraph, start_nodes: Set[DSGNode]
             conn_deg = get_out_degree(graph, next_node, edge_type=EdgeType.CONNECTS) \
                 if is_out_conn else get_in_degree(graph, next_node, edge_type=EdgeType.CONNECTS)
 
-            if not base_conn_node.is_valid(0) and conn_deg == 0 and \
-                    not has_conditional_existence(graph, start_nodes, base_conn_node):
+            if not base_conn_node.is_valid(0) and conn_deg == 0 and not _exists_conditionally(base_conn_node):
                 unconnected_connectors.append(connector_node)
                 if stop_at_one:
                     return unconnected_connectors
@@ -507,8 +516,7 @@ def get_unconnected_connectors(graph: nx.MultiDiGraph, start_nodes: Set[DSGNode]
                 if is_out_conn else get_in_degree(graph, base_conn_node, edge_type=EdgeType.CONNECTS)
 
             # As above: a connector that only exists conditionally does not make the graph infeasible (yet)
-            if not base_conn_node.is_valid(conn_deg) and \
-                    not has_conditional_existence(graph, start_nodes, base_conn_node):
+            if not base_conn_node.is_valid(conn_deg) and not _exists_conditionally(base_conn_node):
                 unconnected_connectors.append(connector_node)
                 if stop_at_one:
                     return unconnected_connectors
